@@ -149,6 +149,8 @@ func ReadHexInt(r network.Reader) (int, error) {
 	}
 }
 
+const maxIntValue = int(^uint(0) >> 1)
+
 func ParseUintBuf(b []byte) (int, int, error) {
 	n := len(b)
 	if n == 0 {
@@ -164,12 +166,11 @@ func ParseUintBuf(b []byte) (int, int, error) {
 			}
 			return v, i, nil
 		}
-		vNew := 10*v + int(k)
 		// Test for overflow.
-		if vNew < v {
+		if v > (maxIntValue-int(k))/10 {
 			return -1, i, errTooLongInt
 		}
-		v = vNew
+		v = 10*v + int(k)
 	}
 	return v, n, nil
 }
